@@ -10,18 +10,23 @@ CONSTANTS p1, p2, p3
 Desc(p, q) == [fa |-> Cur(p).fn, aa |-> Cur(p).acc, pa |-> path[p], fb |-> Cur(q).fn, ab |-> Cur(q).acc, pb |-> path[q],
                locs |-> Cur(p).locs \cap Cur(q).locs]
 
-MCInit == AInit /\ TLCSet(3, {})
+MCInit == AInit /\ TLCSet(3, {}) /\ TLCSet(4, {})
+
+\* what a process that cannot enter its next step is waiting for
+Blocked(p) == [fn |-> Cur(p).fn, path |-> path[p], wants |-> LockSet(Cur(p)) \ held[p], holds |-> held[p]]
+DeadDesc == {Blocked(p) : p \in {q \in Procs : ~Done(q)}}
 MCSpec == MCInit /\ [][ANext]_avars
 Symm == Permutations(Procs)
 
 \* state constraint used only for its side effect
-Collect == TLCSet(3, TLCGet(3) \cup {Desc(pq[1], pq[2]) : pq \in RacingNow})
+Collect == /\ TLCSet(3, TLCGet(3) \cup {Desc(pq[1], pq[2]) : pq \in RacingNow})
+           /\ (NoDeadlock \/ TLCSet(4, TLCGet(4) \cup {DeadDesc}))
 
 \* every pair of code sites that touch a common location with at least one write (computed once, statically)
 AllSteps == UNION {{[fn |-> Path(n)[i].fn, acc |-> Path(n)[i].acc, locs |-> Path(n)[i].locs] : i \in 1..Len(Path(n))} : n \in PathNames}
 Conflicting == {<<a.fn, a.acc, b.fn, b.acc>> : <<a, b>> \in {ab \in AllSteps \X AllSteps : Conflict(ab[1], ab[2])}}
 
-Report == PrintT(ToJson([racing |-> TLCGet(3), conflicting |-> Conflicting])) /\ TRUE
+Report == PrintT(ToJson([racing |-> TLCGet(3), conflicting |-> Conflicting, deadlocks |-> TLCGet(4)])) /\ TRUE
 
 \* the step tables, one JSON line per path (evaluated once)
 DumpPaths == \A n \in AllPathNames :
